@@ -136,6 +136,12 @@ func (v Val) ToProto() *structpb.Value {
 		return structpb.NewListValue(&structpb.ListValue{Values: out})
 	case "null":
 		return structpb.NewNullValue()
+	case "map":
+		s := &structpb.Struct{Fields: map[string]*structpb.Value{}}
+		for k, e := range v.V.(map[string]Val) {
+			s.Fields[k] = e.ToProto()
+		}
+		return structpb.NewStructValue(s)
 	}
 	panic("bad val kind " + v.K)
 }
